@@ -1,1 +1,532 @@
+//! C12 — batch results are positional: entry i is the outcome of request i.
+//!
+//! Two scenarios with one oracle: the WebSocket-style async client over the simulated transport, and the
+//! `HttpClient` whose tower backend is a harness layer. The peer replies to every batch with a drawn
+//! permutation / subset / duplication / foreign id / mixture of two batches.
 
+use std::collections::BTreeMap;
+use std::future::Future;
+use std::pin::Pin;
+use std::sync::atomic::{AtomicU64, Ordering};
+use std::sync::{Arc, Mutex};
+use std::task::{Context, Poll};
+use std::time::Duration;
+
+use jsonrpsee_core::client::{BatchResponse, Client, ClientT, Error, IdKind};
+use jsonrpsee_core::params::BatchRequestBuilder;
+use jsonrpsee_core::rpc_params;
+use serde_json::{Value, json};
+
+use super::calls::{Ans, ans_to_text};
+use super::{Parsed, Wire, nonce_of, parse_out};
+use crate::rt;
+
+const P: &str = "C12";
+
+/// One element the peer put into some reply.
+#[derive(Debug, Clone)]
+pub struct Sent {
+	pub id: String,
+	pub ans: Ans,
+	/// delivery handle: push sequence (ws) or request sequence (http)
+	pub seq: u64,
+}
+
+#[derive(Debug, Clone)]
+pub struct BatchRec {
+	pub nonces: Vec<u64>,
+	pub done_stamp: u64,
+	/// Ok((entries, successful_calls, failed_calls))
+	pub result: Result<(Vec<Ans>, usize, usize), String>,
+}
+
+#[derive(Debug, Clone, Copy, PartialEq)]
+pub enum Mode {
+	Full,
+	Subset,
+	Dup,
+	Foreign,
+	Mix,
+}
+
+fn fresh_ans(ctr: &mut u64) -> Ans {
+	*ctr += 1;
+	if rt::chance("err", 1, 4) {
+		Ans::Err(-32000 - (*ctr % 90) as i64, format!("e{ctr}"), if *ctr % 2 == 0 { Some(json!({"n": *ctr})) } else { None })
+	} else {
+		Ans::Ok(json!(*ctr))
+	}
+}
+
+/// Build the reply elements for one batch (ids in request order) under `mode`.
+fn build_reply(ids: &[Value], mode: Mode, ctr: &mut u64, id_str: bool) -> Vec<(Value, Ans)> {
+	let mut els: Vec<(Value, Ans)> = ids.iter().map(|i| (i.clone(), fresh_ans(ctr))).collect();
+	match mode {
+		Mode::Full | Mode::Mix => {}
+		Mode::Subset => {
+			// omit 1..n-1 elements (drawn positions; first and last are the interesting ones)
+			let omit = rt::draw_range("omit_n", 1, (els.len() as u32).saturating_sub(1).max(1));
+			for _ in 0..omit {
+				if els.len() > 1 {
+					let which = match rt::draw("omit_which", 3) {
+						0 => 0,
+						1 => els.len() - 1,
+						_ => rt::draw("omit_pos", els.len() as u32) as usize,
+					};
+					els.remove(which);
+				}
+			}
+		}
+		Mode::Dup => {
+			let k = rt::draw("dup_pos", els.len() as u32) as usize;
+			let extra = (els[k].0.clone(), fresh_ans(ctr));
+			if els.len() > 1 && rt::chance("dup_replaces", 1, 2) {
+				// the duplicate takes the place of another element (so the length still matches)
+				let j = (k + 1 + rt::draw("dup_victim", els.len() as u32 - 1) as usize) % els.len();
+				els[j] = extra;
+			} else {
+				els.push(extra);
+			}
+		}
+		Mode::Foreign => {
+			let foreign = match rt::draw("foreign_kind", 3) {
+				0 => {
+					if id_str {
+						json!("88888")
+					} else {
+						json!(88888)
+					}
+				}
+				1 => {
+					// just outside the range
+					let last = ids.last().and_then(|v| v.as_u64().or_else(|| v.as_str().and_then(|s| s.parse().ok()))).unwrap_or(0);
+					if id_str { json!((last + 1).to_string()) } else { json!(last + 1) }
+				}
+				_ => {
+					let first = ids.first().and_then(|v| v.as_u64().or_else(|| v.as_str().and_then(|s| s.parse().ok()))).unwrap_or(0);
+					if first == 0 {
+						json!(77)
+					} else if id_str {
+						json!((first - 1).to_string())
+					} else {
+						json!(first - 1)
+					}
+				}
+			};
+			let a = fresh_ans(ctr);
+			if rt::chance("foreign_replaces", 1, 2) {
+				let k = rt::draw("foreign_pos", els.len() as u32) as usize;
+				els[k] = (foreign, a);
+			} else {
+				els.push((foreign, a));
+			}
+		}
+	}
+	// permute
+	let mut out = Vec::new();
+	while !els.is_empty() {
+		let j = rt::draw("perm", els.len() as u32) as usize;
+		out.push(els.remove(j));
+	}
+	out
+}
+
+fn draw_mode(allow_mix: bool) -> Mode {
+	match rt::draw("mode", 8) {
+		0..=2 => Mode::Full,
+		3 => Mode::Subset,
+		4 => Mode::Dup,
+		5 => Mode::Foreign,
+		6 if allow_mix => Mode::Mix,
+		_ => Mode::Subset,
+	}
+}
+
+fn batch_result<'a>(r: Result<BatchResponse<'a, Value>, Error>) -> Result<(Vec<Ans>, usize, usize), String> {
+	match r {
+		Ok(br) => {
+			let (s, f) = (br.num_successful_calls(), br.num_failed_calls());
+			Ok((
+				br.into_iter()
+					.map(|e| match e {
+						Ok(v) => Ans::Ok(v),
+						Err(o) => Ans::Err(o.code() as i64, o.message().to_string(), o.data().map(|d| serde_json::from_str(d.get()).unwrap())),
+					})
+					.collect(),
+				s,
+				f,
+			))
+		}
+		Err(e) => Err(format!("{e:?}")),
+	}
+}
+
+/// The oracle shared by both clients.
+/// `id_of`: nonce -> wire id; `sent`: everything the peer sent; `delivered_before(seq, stamp)`.
+fn check_batches(client_kind: &str, recs: &[BatchRec], id_of: &BTreeMap<u64, String>, sent: &[Sent], delivered_before: &dyn Fn(u64, u64) -> bool, all_friendly: bool) {
+	let mut nontrivial = false;
+	for r in recs {
+		match &r.result {
+			Ok((list, succ, fail)) => {
+				if list.len() != r.nonces.len() {
+					let sig = if list.len() < r.nonces.len() { "shorter" } else { "longer" };
+					rt::violate(P, "wrong-length", format!("{client_kind}:{sig}"), format!("batch of {} entries {:?} returned {} results: {list:?}", r.nonces.len(), r.nonces, list.len()));
+				}
+				let n_ok = list.iter().filter(|a| matches!(a, Ans::Ok(_))).count();
+				let n_err = list.len() - n_ok;
+				if *succ != n_ok || *fail != n_err {
+					rt::violate(P, "count-mismatch", client_kind.to_string(), format!("batch {:?}: num_successful_calls={succ} num_failed_calls={fail} but the list has {n_ok} Ok and {n_err} Err entries: {list:?}", r.nonces));
+				}
+				for (i, (n, a)) in r.nonces.iter().zip(list).enumerate() {
+					let Some(id) = id_of.get(n) else { continue };
+					let own: Vec<&Sent> = sent.iter().filter(|s| &s.id == id && delivered_before(s.seq, r.done_stamp)).collect();
+					if own.iter().any(|s| &s.ans == a) {
+						if own.len() == 1 && i > 0 {
+							nontrivial = true;
+						}
+						continue;
+					}
+					// someone else's answer?
+					if let Some(o) = sent.iter().find(|s| &s.ans == a) {
+						rt::violate(P, "misplaced-entry", client_kind.to_string(), format!("batch {:?}: entry {i} (id {id}) was filled with {a:?}, which the peer sent for id {}", r.nonces, o.id));
+					} else if matches!(a, Ans::Ok(_)) {
+						rt::violate(P, "invented-entry", client_kind.to_string(), format!("batch {:?}: entry {i} (id {id}) holds {a:?}, which the peer never sent", r.nonces));
+					}
+					// otherwise: an error the peer did not send = the client's own "no answer" marker: allowed
+				}
+			}
+			Err(e) => {
+				if all_friendly {
+					rt::violate(P, "friendly-batch-failed", client_kind.to_string(), format!("batch {:?} failed with {e} although every reply was a complete permutation", r.nonces));
+				}
+			}
+		}
+	}
+	if nontrivial {
+		rt::probe("nontrivial");
+	}
+}
+
+// ------------------------------------------------------------------------------------------------
+// WebSocket-style client
+
+pub async fn scenario_ws() {
+	let n_batches = rt::draw_range("n_batches", 1, 3);
+	let n_singles = rt::draw("n_singles", 3);
+	let id_str = rt::chance("id_kind", 1, 3);
+	let sizes: Vec<u32> = (0..n_batches).map(|_| rt::draw_range("size", 1, 6)).collect();
+	let hostile_run = rt::chance("hostile_run", 2, 3);
+	rt::event("plan", format!("batches={sizes:?} singles={n_singles} id_str={id_str} hostile_run={hostile_run}"));
+
+	let (wire, tx, rx) = Wire::new();
+	let client = Arc::new(
+		Client::builder()
+			.id_format(if id_str { IdKind::String } else { IdKind::Number })
+			.request_timeout(Duration::from_secs(60))
+			.build_with_tokio(tx, rx),
+	);
+	let sent: Arc<Mutex<Vec<Sent>>> = Arc::default();
+	let modes: Arc<Mutex<Vec<Mode>>> = Arc::default();
+	let nonce_ctr = Arc::new(AtomicU64::new(1));
+
+	// peer
+	let peer = {
+		let (wire, sent, modes) = (wire.clone(), sent.clone(), modes.clone());
+		rt::spawn("peer", async move {
+			let mut ctr = 1_000_000u64;
+			// outstanding: (ids, is_batch)
+			let mut outstanding: Vec<(Vec<Value>, bool)> = Vec::new();
+			let reg = |m: super::OutMsg, o: &mut Vec<(Vec<Value>, bool)>| match parse_out(&m.text) {
+				Parsed::Call { id, .. } => o.push((vec![id], false)),
+				Parsed::Batch(es) => o.push((es.iter().filter_map(|e| if let Parsed::Call { id, .. } = e { Some(id.clone()) } else { None }).collect(), true)),
+				_ => {}
+			};
+			loop {
+				while let Some(m) = wire.try_next_out() {
+					reg(m, &mut outstanding);
+				}
+				if outstanding.is_empty() {
+					match wire.next_out().await {
+						Some(m) => reg(m, &mut outstanding),
+						None => break,
+					}
+					continue;
+				}
+				match rt::draw("peer-act", 6) {
+					0 => tokio::time::sleep(Duration::from_millis(rt::draw_range("lat", 1, 30) as u64)).await,
+					1 => rt::yield_n(1).await,
+					_ => {
+						let k = rt::draw("which", outstanding.len() as u32) as usize;
+						let (ids, is_batch) = outstanding.remove(k);
+						if !is_batch {
+							let a = fresh_ans(&mut ctr);
+							let seq = wire.push_text(ans_to_text(&ids[0], &a));
+							sent.lock().unwrap().push(Sent { id: ids[0].to_string(), ans: a, seq });
+							continue;
+						}
+						let others: Vec<usize> = outstanding.iter().enumerate().filter(|(_, o)| o.1).map(|(i, _)| i).collect();
+						let mode = if hostile_run { draw_mode(!others.is_empty()) } else { Mode::Full };
+						modes.lock().unwrap().push(mode);
+						rt::probe(match mode {
+							Mode::Full => "reply.full",
+							Mode::Subset => "reply.subset",
+							Mode::Dup => "reply.dup",
+							Mode::Foreign => "reply.foreign",
+							Mode::Mix => "reply.mix",
+						});
+						let mut els = build_reply(&ids, mode, &mut ctr, id_str);
+						if mode == Mode::Mix {
+							// merge with the complete reply of another outstanding batch, in one array
+							let j = others[rt::draw("mix_with", others.len() as u32) as usize];
+							let (ids2, _) = outstanding.remove(j);
+							let more = build_reply(&ids2, Mode::Full, &mut ctr, id_str);
+							for e in more {
+								let at = rt::draw("mix_at", els.len() as u32 + 1) as usize;
+								els.insert(at, e);
+							}
+						}
+						let text = format!("[{}]", els.iter().map(|(i, a)| ans_to_text(i, a)).collect::<Vec<_>>().join(","));
+						let seq = wire.push_text(text);
+						for (i, a) in els {
+							sent.lock().unwrap().push(Sent { id: i.to_string(), ans: a, seq });
+						}
+					}
+				}
+			}
+		})
+	};
+
+	let recs: Arc<Mutex<Vec<BatchRec>>> = Arc::default();
+	let singles: Arc<Mutex<Vec<(u64, u64, Result<Ans, String>)>>> = Arc::default();
+	let mut hs = Vec::new();
+	for size in sizes {
+		let (client, recs, nonce_ctr) = (client.clone(), recs.clone(), nonce_ctr.clone());
+		hs.push(rt::spawn("front", async move {
+			let nonces: Vec<u64> = (0..size).map(|_| nonce_ctr.fetch_add(1, Ordering::Relaxed)).collect();
+			let mut b = BatchRequestBuilder::new();
+			for n in &nonces {
+				b.insert("m", rpc_params![*n]).unwrap();
+			}
+			rt::event("op-batch", format!("nonces={nonces:?}"));
+			let r: Result<BatchResponse<Value>, Error> = client.batch_request(b).await;
+			let st = rt::event("op-done", format!("nonces={nonces:?} {r:?}"));
+			recs.lock().unwrap().push(BatchRec { nonces, done_stamp: st, result: batch_result(r) });
+		}));
+	}
+	for _ in 0..n_singles {
+		let (client, singles, nonce_ctr) = (client.clone(), singles.clone(), nonce_ctr.clone());
+		hs.push(rt::spawn("front", async move {
+			let n = nonce_ctr.fetch_add(1, Ordering::Relaxed);
+			let r: Result<Value, Error> = client.request("m", rpc_params![n]).await;
+			let st = rt::event("op-done", format!("single nonce={n} {r:?}"));
+			let res = match r {
+				Ok(v) => Ok(Ans::Ok(v)),
+				Err(e) => super::calls::client_err_to_ans(&e),
+			};
+			singles.lock().unwrap().push((n, st, res));
+		}));
+	}
+	for h in hs {
+		let _ = h.await;
+	}
+
+	// oracle
+	let mut id_of = BTreeMap::new();
+	{
+		let w = wire.lock();
+		for m in &w.out_log {
+			let mut reg = |p: &Parsed| {
+				if let Parsed::Call { id, params, .. } = p {
+					if let Some(n) = nonce_of(params) {
+						id_of.insert(n, id.to_string());
+					}
+				}
+			};
+			match parse_out(&m.text) {
+				Parsed::Batch(es) => es.iter().for_each(&mut reg),
+				p => reg(&p),
+			}
+		}
+	}
+	let all_friendly = modes.lock().unwrap().iter().all(|m| *m == Mode::Full);
+	let sent_v = sent.lock().unwrap().clone();
+	let delivered_before = |seq: u64, stamp: u64| wire.delivered_stamp(seq).is_some_and(|d| d < stamp);
+	check_batches("ws", &recs.lock().unwrap(), &id_of, &sent_v, &delivered_before, all_friendly);
+	for (n, st, res) in singles.lock().unwrap().iter() {
+		if let (Ok(a), Some(id)) = (res, id_of.get(n)) {
+			if !sent_v.iter().any(|s| &s.id == id && &s.ans == a && delivered_before(s.seq, *st)) {
+				rt::violate(P, "single-call-wrong-answer", "ws", format!("single call nonce={n} id={id} completed with {a:?}, not sent for that id"));
+			}
+		} else if let (Err(e), true) = (res, all_friendly) {
+			rt::violate(P, "friendly-batch-failed", "ws:single", format!("single call nonce={n} failed with {e} in a run where every reply was well-formed"));
+		}
+	}
+	drop(client);
+	let _ = peer.await;
+}
+
+// ------------------------------------------------------------------------------------------------
+// HTTP client: harness tower layer instead of the hyper connection pool
+
+use jsonrpsee_http_client::{HttpClient, HttpRequest, HttpResponse, transport::Error as TransportError};
+
+#[derive(Clone)]
+struct Backend {
+	sent: Arc<Mutex<Vec<Sent>>>,
+	modes: Arc<Mutex<Vec<Mode>>>,
+	req_seq: Arc<AtomicU64>,
+	ctr: Arc<Mutex<u64>>,
+	id_of: Arc<Mutex<BTreeMap<u64, String>>>,
+	hostile_run: bool,
+	id_str: bool,
+}
+
+struct BackendLayer(Backend);
+impl<S> tower::Layer<S> for BackendLayer {
+	type Service = Backend;
+	fn layer(&self, _inner: S) -> Backend {
+		self.0.clone()
+	}
+}
+
+impl tower::Service<HttpRequest> for Backend {
+	type Response = HttpResponse<http_body_util::Full<bytes::Bytes>>;
+	type Error = TransportError;
+	type Future = Pin<Box<dyn Future<Output = Result<Self::Response, Self::Error>> + Send>>;
+
+	fn poll_ready(&mut self, _cx: &mut Context<'_>) -> Poll<Result<(), Self::Error>> {
+		Poll::Ready(Ok(()))
+	}
+
+	fn call(&mut self, req: HttpRequest) -> Self::Future {
+		let this = self.clone();
+		Box::pin(async move {
+			use http_body_util::BodyExt;
+			let body = req.into_body().collect().await.map_err(|_| TransportError::RequestTooLarge)?.to_bytes();
+			let text = String::from_utf8_lossy(&body).to_string();
+			let seq = this.req_seq.fetch_add(1, Ordering::Relaxed) + 1;
+			rt::event("http-request", format!("#{seq} {text}"));
+			// virtual latency and scheduling points
+			if rt::chance("http_lat", 1, 2) {
+				tokio::time::sleep(Duration::from_millis(rt::draw_range("lat", 1, 30) as u64)).await;
+			}
+			rt::yield_n(rt::draw("http_yield", 3)).await;
+			let mut ctr = this.ctr.lock().unwrap();
+			let reply = match parse_out(&text) {
+				Parsed::Call { id, params, .. } => {
+					if let Some(n) = nonce_of(&params) {
+						this.id_of.lock().unwrap().insert(n, id.to_string());
+					}
+					let a = fresh_ans(&mut ctr);
+					this.sent.lock().unwrap().push(Sent { id: id.to_string(), ans: a.clone(), seq });
+					ans_to_text(&id, &a)
+				}
+				Parsed::Batch(es) => {
+					let mut ids = Vec::new();
+					for e in &es {
+						if let Parsed::Call { id, params, .. } = e {
+							if let Some(n) = nonce_of(params) {
+								this.id_of.lock().unwrap().insert(n, id.to_string());
+							}
+							ids.push(id.clone());
+						}
+					}
+					let mode = if this.hostile_run { draw_mode(false) } else { Mode::Full };
+					this.modes.lock().unwrap().push(mode);
+					rt::probe(match mode {
+						Mode::Full => "reply.full",
+						Mode::Subset => "reply.subset",
+						Mode::Dup => "reply.dup",
+						Mode::Foreign => "reply.foreign",
+						Mode::Mix => "reply.mix",
+					});
+					let els = build_reply(&ids, mode, &mut ctr, this.id_str);
+					let t = format!("[{}]", els.iter().map(|(i, a)| ans_to_text(i, a)).collect::<Vec<_>>().join(","));
+					for (i, a) in els {
+						this.sent.lock().unwrap().push(Sent { id: i.to_string(), ans: a, seq });
+					}
+					t
+				}
+				_ => "null".to_string(),
+			};
+			drop(ctr);
+			rt::event("http-reply", format!("#{seq} {reply}"));
+			Ok(http::Response::builder().status(200).header("content-type", "application/json").body(http_body_util::Full::new(bytes::Bytes::from(reply))).unwrap())
+		})
+	}
+}
+
+pub async fn scenario_http() {
+	let n_batches = rt::draw_range("n_batches", 1, 3);
+	let n_singles = rt::draw("n_singles", 2);
+	let id_str = rt::chance("id_kind", 1, 3);
+	let sizes: Vec<u32> = (0..n_batches).map(|_| rt::draw_range("size", 1, 6)).collect();
+	let hostile_run = rt::chance("hostile_run", 2, 3);
+	rt::event("plan", format!("http batches={sizes:?} singles={n_singles} id_str={id_str} hostile_run={hostile_run}"));
+	let backend = Backend {
+		sent: Arc::default(),
+		modes: Arc::default(),
+		req_seq: Arc::default(),
+		ctr: Arc::new(Mutex::new(1_000_000)),
+		id_of: Arc::default(),
+		hostile_run,
+		id_str,
+	};
+	let client: Arc<HttpClient<_>> = Arc::new(
+		HttpClient::builder()
+			.id_format(if id_str { IdKind::String } else { IdKind::Number })
+			.request_timeout(Duration::from_secs(60))
+			.set_http_middleware(tower::ServiceBuilder::new().layer(BackendLayer(backend.clone())))
+			.build("http://sim.invalid:80")
+			.expect("http client"),
+	);
+	let nonce_ctr = Arc::new(AtomicU64::new(1));
+	let recs: Arc<Mutex<Vec<BatchRec>>> = Arc::default();
+	let singles: Arc<Mutex<Vec<(u64, u64, Result<Ans, String>)>>> = Arc::default();
+	let mut hs = Vec::new();
+	for size in sizes {
+		let (client, recs, nonce_ctr) = (client.clone(), recs.clone(), nonce_ctr.clone());
+		hs.push(rt::spawn("front", async move {
+			let nonces: Vec<u64> = (0..size).map(|_| nonce_ctr.fetch_add(1, Ordering::Relaxed)).collect();
+			let mut b = BatchRequestBuilder::new();
+			for n in &nonces {
+				b.insert("m", rpc_params![*n]).unwrap();
+			}
+			rt::event("op-batch", format!("nonces={nonces:?}"));
+			let r: Result<BatchResponse<Value>, Error> = client.batch_request(b).await;
+			let st = rt::event("op-done", format!("nonces={nonces:?} {r:?}"));
+			recs.lock().unwrap().push(BatchRec { nonces, done_stamp: st, result: batch_result(r) });
+		}));
+	}
+	for _ in 0..n_singles {
+		let (client, singles, nonce_ctr) = (client.clone(), singles.clone(), nonce_ctr.clone());
+		hs.push(rt::spawn("front", async move {
+			let n = nonce_ctr.fetch_add(1, Ordering::Relaxed);
+			let r: Result<Value, Error> = client.request("m", rpc_params![n]).await;
+			let st = rt::event("op-done", format!("single nonce={n} {r:?}"));
+			let res = match r {
+				Ok(v) => Ok(Ans::Ok(v)),
+				Err(e) => super::calls::client_err_to_ans(&e),
+			};
+			singles.lock().unwrap().push((n, st, res));
+		}));
+	}
+	for h in hs {
+		let _ = h.await;
+	}
+	let id_of = backend.id_of.lock().unwrap().clone();
+	let sent_v = backend.sent.lock().unwrap().clone();
+	let all_friendly = backend.modes.lock().unwrap().iter().all(|m| *m == Mode::Full);
+	check_batches("http", &recs.lock().unwrap(), &id_of, &sent_v, &|_, _| true, all_friendly);
+	for (n, _st, res) in singles.lock().unwrap().iter() {
+		match (res, id_of.get(n)) {
+			(Ok(a), Some(id)) => {
+				if !sent_v.iter().any(|s| &s.id == id && &s.ans == a) {
+					rt::violate(P, "single-call-wrong-answer", "http", format!("single call nonce={n} id={id} completed with {a:?}, not sent for that id"));
+				}
+			}
+			(Err(e), _) => rt::violate(P, "friendly-batch-failed", "http:single", format!("single call nonce={n} failed with {e}")),
+			_ => {}
+		}
+	}
+}
